@@ -4,7 +4,7 @@
 (* (32 buckets, H = 5) against SegRef, with buckets computed by SegLayout   *)
 (* from the logged (normalised) offsets and places by SegHeap.              *)
 (***************************************************************************)
-EXTENDS SegLayout, SegHeap, Sequences, Json, IOUtils      \* SegHeap with H = 5 (cfg)
+EXTENDS SegLayout, SegHeap, Sequences, Json, IOUtils, FiniteSetsExt      \* SegHeap with H = 5 (cfg)
 
 VARIABLES l, vals, now,
           len,       \* (normalised) domain length of the tree under test, 0 = none
@@ -93,6 +93,17 @@ OpOk ==
               /\ (Has("ch") /\ Ev.whole = 1 => V("COPIES", OnlyLiveCopies(vals, Ev.t),
                    <<"after a complete whole-domain query at", Ev.t, "stored copies", AllCopies>>))
          ELSE Same /\ Breach(<<"query outside the contract", Ev.a, Ev.b, Ev.t, now, len>>)
+    [] Ev.op = "ticks" ->        \* n complete queries over one range at the times t, t + 1, .., t + n - 1, observed as one call
+         IF InDomain(Ev.a) /\ InDomain(Ev.b) /\ Ev.a <= Ev.b /\ R!CanQuery(Ev.t) /\ Ev.n >= 1
+         THEN LET c == B(Ev.a) d == B(Ev.b)
+                  over == {x \in vals : x.a <= d /\ c <= x.b /\ x.e >= Ev.t}
+                  \* a query yields something as long as the time does not exceed the latest expiration in range
+                  want == IF over = {} THEN 0
+                          ELSE LET m == FoldSet(LAMBDA x, acc : IF x.e > acc THEN x.e ELSE acc, Ev.t, over)
+                               IN IF m - Ev.t + 1 > Ev.n THEN Ev.n ELSE m - Ev.t + 1
+              IN /\ vals' = vals /\ now' = Ev.t + Ev.n - 1
+                 /\ V("YIELD", Ev.nonempty = want, <<"of", Ev.n, "queries from time", Ev.t, "on,", Ev.nonempty, "yielded something; expected", want>>)
+         ELSE Same /\ Breach(<<"queries outside the contract", Ev.a, Ev.b, Ev.t, now, len>>)
     [] Ev.op = "queryn" ->       \* a query whose yield is logged in summary: n items, nd distinct ids, the first 40 ids
          IF InDomain(Ev.a) /\ InDomain(Ev.b) /\ Ev.a <= Ev.b /\ R!CanQuery(Ev.t)
          THEN LET ex == R!Expect(B(Ev.a), B(Ev.b), Ev.t)
